@@ -675,12 +675,12 @@ let rec drop_while p l = match l with
 
 (** val concat_map_sep : z -> str list -> str **)
 
-let rec concat_map_sep sep = function
+let rec concat_map_sep sep0 = function
 | [] -> []
 | l :: r ->
   (match r with
    | [] -> l
-   | _ :: _ -> app l (sep :: (concat_map_sep sep r)))
+   | _ :: _ -> app l (sep0 :: (concat_map_sep sep0 r)))
 
 type val0 =
 | VI of z
@@ -2626,17 +2626,17 @@ let is_sep c =
 
 (** val split_aux : z -> str -> str -> str list **)
 
-let rec split_aux sep cur = function
+let rec split_aux sep0 cur = function
 | [] -> (rev cur) :: []
 | c :: r ->
-  if Z.eqb c sep
-  then (rev cur) :: (split_aux sep [] r)
-  else split_aux sep (c :: cur) r
+  if Z.eqb c sep0
+  then (rev cur) :: (split_aux sep0 [] r)
+  else split_aux sep0 (c :: cur) r
 
 (** val split_on : z -> str -> str list **)
 
-let split_on sep s =
-  split_aux sep [] s
+let split_on sep0 s =
+  split_aux sep0 [] s
 
 type key =
 | KRune of z
@@ -6098,11 +6098,11 @@ type bind0 = bpair list
 
 (** val join : z -> str list -> str **)
 
-let rec join sep = function
+let rec join sep0 = function
 | [] -> []
 | x :: r -> (match r with
              | [] -> x
-             | _ :: _ -> app x (sep :: (join sep r)))
+             | _ :: _ -> app x (sep0 :: (join sep0 r)))
 
 (** val render_act : act -> str **)
 
@@ -6715,14 +6715,14 @@ let blanks n =
 
 (** val mask_loop : nat -> str -> str res **)
 
-let rec mask_loop fuel action0 =
+let rec mask_loop fuel action1 =
   match fuel with
   | O -> Err OutOfFuel
   | S f ->
-    (match find_exec action0 with
+    (match find_exec action1 with
      | Some e ->
-       let pre = firstn e action0 in
-       let rest = skipn e action0 in
+       let pre = firstn e action1 in
+       let rest = skipn e action1 in
        (match rest with
         | [] -> Ok pre
         | c :: _ ->
@@ -6736,7 +6736,7 @@ let rec mask_loop fuel action0 =
                        (app pre (app (blanks n) m)))
                    | None -> Ok (app pre rest))
                 | None -> bind (mask_loop f rest) (fun m -> Ok (app pre m))))
-     | None -> Ok action0)
+     | None -> Ok action1)
 
 (** val rep2 : z -> z -> z -> z -> str -> str **)
 
@@ -6791,8 +6791,8 @@ let escapes m =
 
 (** val mask_action_contents : str -> str res **)
 
-let mask_action_contents action0 =
-  bind (mask_loop (S (length action0)) action0) (fun m -> Ok (escapes m))
+let mask_action_contents action1 =
+  bind (mask_loop (S (length action1)) action1) (fun m -> Ok (escapes m))
 
 (** val s_alt_comma : str **)
 
@@ -8546,17 +8546,17 @@ let rec pal_loop specs first prev_spec acc prev_actions put_allowed =
 (** val split2_aux :
     z -> (z * z) list -> (z * z) list -> (z * z) list list **)
 
-let rec split2_aux sep cur = function
+let rec split2_aux sep0 cur = function
 | [] -> (rev cur) :: []
 | c :: r ->
-  if Z.eqb (fst c) sep
-  then (rev cur) :: (split2_aux sep [] r)
-  else split2_aux sep (c :: cur) r
+  if Z.eqb (fst c) sep0
+  then (rev cur) :: (split2_aux sep0 [] r)
+  else split2_aux sep0 (c :: cur) r
 
 (** val split2 : z -> (z * z) list -> (z * z) list list **)
 
-let split2 sep s =
-  split2_aux sep [] s
+let split2 sep0 s =
+  split2_aux sep0 [] s
 
 (** val parse_action_list :
     str -> str -> action list -> bool -> action list outcome res **)
@@ -12524,12 +12524,12 @@ let rec span p s = match s with
 
 (** val join_str : str -> str list -> str **)
 
-let rec join_str sep = function
+let rec join_str sep0 = function
 | [] -> []
 | l :: r ->
   (match r with
    | [] -> l
-   | _ :: _ -> app l (app sep (join_str sep r)))
+   | _ :: _ -> app l (app sep0 (join_str sep0 r)))
 
 (** val mid : nat -> str -> str res **)
 
@@ -13051,18 +13051,18 @@ let awk_tokens s =
 
 (** val split_after : nat -> str -> str -> str -> str list res **)
 
-let rec split_after fuel sep s cur =
+let rec split_after fuel sep0 s cur =
   match fuel with
   | O -> Err OutOfFuel
   | S f ->
     (match s with
      | [] -> Ok ((rev cur) :: [])
      | c :: r ->
-       (match strip_prefix sep s with
+       (match strip_prefix sep0 s with
         | Some rest ->
-          bind (split_after f sep rest []) (fun l -> Ok
-            ((app (rev cur) sep) :: l))
-        | None -> split_after f sep r (c :: cur)))
+          bind (split_after f sep0 rest []) (fun l -> Ok
+            ((app (rev cur) sep0) :: l))
+        | None -> split_after f sep0 r (c :: cur)))
 
 (** val tokenize : str option -> str -> str list res **)
 
@@ -13603,31 +13603,31 @@ let rec is_prefix p s =
 
 (** val split_after_go : str -> nat -> str -> str -> str list **)
 
-let rec split_after_go sep skip cur s = match s with
+let rec split_after_go sep0 skip cur s = match s with
 | [] -> (rev cur) :: []
 | c :: t0 ->
   (match skip with
    | O ->
-     if is_prefix sep s
-     then (match length sep with
-           | O -> split_after_go sep (sub O (S O)) (c :: cur) t0
+     if is_prefix sep0 s
+     then (match length sep0 with
+           | O -> split_after_go sep0 (sub O (S O)) (c :: cur) t0
            | S n0 ->
              (match n0 with
-              | O -> (rev (c :: cur)) :: (split_after_go sep O [] t0)
+              | O -> (rev (c :: cur)) :: (split_after_go sep0 O [] t0)
               | S n1 ->
-                split_after_go sep (sub (S (S n1)) (S O)) (c :: cur) t0))
-     else split_after_go sep O (c :: cur) t0
+                split_after_go sep0 (sub (S (S n1)) (S O)) (c :: cur) t0))
+     else split_after_go sep0 O (c :: cur) t0
    | S k ->
      (match k with
-      | O -> (rev (c :: cur)) :: (split_after_go sep O [] t0)
-      | S _ -> split_after_go sep k (c :: cur) t0))
+      | O -> (rev (c :: cur)) :: (split_after_go sep0 O [] t0)
+      | S _ -> split_after_go sep0 k (c :: cur) t0))
 
 (** val split_after0 : str -> str -> str list **)
 
-let split_after0 sep line =
-  match sep with
+let split_after0 sep0 line =
+  match sep0 with
   | [] -> map (fun c -> c :: []) line
-  | _ :: _ -> split_after_go sep O [] line
+  | _ :: _ -> split_after_go sep0 O [] line
 
 (** val split_by_from : nat -> (nat * nat) list -> str -> str list **)
 
@@ -13890,7 +13890,7 @@ let rec regex_tokens text begin0 = function
 let tokenize0 text = function
 | DAwk ->
   let (tokens, pl) = awk_tokenizer text in Ok (with_prefix_lengths tokens pl)
-| DStr sep -> Ok (with_prefix_lengths (split_after0 sep text) Z0)
+| DStr sep0 -> Ok (with_prefix_lengths (split_after0 sep0 text) Z0)
 | DRegex rx ->
   bind (regex_tokens text O (rx text)) (fun tokens -> Ok
     (with_prefix_lengths tokens Z0))
@@ -13922,20 +13922,20 @@ let trim_suffix0 s suffix =
 
 (** val split_go : str -> nat -> str -> str -> str list **)
 
-let rec split_go sep skip cur s = match s with
+let rec split_go sep0 skip cur s = match s with
 | [] -> (rev cur) :: []
 | c :: t0 ->
   (match skip with
    | O ->
-     if is_prefix sep s
-     then (rev cur) :: (split_go sep (sub (length sep) (S O)) [] t0)
-     else split_go sep O (c :: cur) t0
-   | S k -> split_go sep k cur t0)
+     if is_prefix sep0 s
+     then (rev cur) :: (split_go sep0 (sub (length sep0) (S O)) [] t0)
+     else split_go sep0 O (c :: cur) t0
+   | S k -> split_go sep0 k cur t0)
 
 (** val split : str -> str -> str list **)
 
-let split sep s =
-  split_go sep O [] s
+let split sep0 s =
+  split_go sep0 O [] s
 
 (** val is_digit1 : z -> bool **)
 
@@ -14173,7 +14173,7 @@ let strip_last_delimiter s d =
   bind
     (match d with
      | DAwk -> Ok s
-     | DStr sep -> Ok (trim_suffix0 s sep)
+     | DStr sep0 -> Ok (trim_suffix0 s sep0)
      | DRegex rx ->
        (match rev (rx s) with
         | [] -> Ok s
@@ -14558,6 +14558,500 @@ let dispatch_token op a =
                                                                     a)))
                                                                     else None
 
+(** val sLASH : z **)
+
+let sLASH =
+  Zpos (XI (XI (XI (XI (XO XH)))))
+
+(** val dOT1 : z **)
+
+let dOT1 =
+  Zpos (XO (XI (XI (XI (XO XH)))))
+
+type entry =
+| File of str
+| Dir of str * entry list
+| SymFile of str
+| SymDir of str * entry list
+
+(** val name_of : entry -> str **)
+
+let name_of = function
+| File n -> n
+| Dir (n, _) -> n
+| SymFile n -> n
+| SymDir (n, _) -> n
+
+type wopts = { o_file : bool; o_dir : bool; o_follow : bool; o_hidden : bool }
+
+(** val starts_with0 : str -> str -> bool **)
+
+let rec starts_with0 p s =
+  match p with
+  | [] -> true
+  | x :: p0 ->
+    (match s with
+     | [] -> false
+     | y :: s0 -> (&&) (Z.eqb x y) (starts_with0 p0 s0))
+
+(** val ends_with : str -> str -> bool **)
+
+let ends_with p s =
+  starts_with0 (rev p) (rev s)
+
+(** val has_slash : str -> bool **)
+
+let has_slash s =
+  existsb (fun c -> Z.eqb c sLASH) s
+
+(** val strip_dot_slash : str -> str **)
+
+let rec strip_dot_slash s = match s with
+| [] -> s
+| a :: l ->
+  (match l with
+   | [] -> s
+   | b :: r ->
+     if (&&) (Z.eqb a dOT1) (Z.eqb b sLASH) then strip_dot_slash r else s)
+
+(** val drop_trailing_slashes : str -> str **)
+
+let drop_trailing_slashes s =
+  rev (drop_while (fun c -> Z.eqb c sLASH) (rev s))
+
+(** val display : str -> str **)
+
+let display root =
+  match strip_dot_slash (drop_trailing_slashes root) with
+  | [] -> dOT1 :: []
+  | z0 :: l -> z0 :: l
+
+(** val child : str -> str -> str **)
+
+let child d nm =
+  if str_eqb d (dOT1 :: []) then nm else app d (sLASH :: nm)
+
+(** val with_sep : str -> str **)
+
+let with_sep p =
+  app p (sLASH :: [])
+
+(** val after_last_slash_aux : str -> str -> str **)
+
+let rec after_last_slash_aux acc = function
+| [] -> rev acc
+| c :: r ->
+  if Z.eqb c sLASH
+  then after_last_slash_aux [] r
+  else after_last_slash_aux (c :: acc) r
+
+(** val base_name : str -> str **)
+
+let base_name p =
+  after_last_slash_aux [] p
+
+(** val hidden_name : str -> bool **)
+
+let hidden_name b = match b with
+| [] -> false
+| c :: _ -> (&&) (Z.eqb c dOT1) (negb (str_eqb b (dOT1 :: (dOT1 :: []))))
+
+(** val skip_matches : str -> str -> str -> bool **)
+
+let skip_matches p b s =
+  if has_slash s
+  then if starts_with0 (sLASH :: []) s
+       then ends_with s p
+       else (||) (str_eqb s p) (ends_with (sLASH :: s) p)
+  else str_eqb s b
+
+(** val skipped : str list -> str -> str -> bool **)
+
+let skipped ig p b =
+  existsb (skip_matches p b) ig
+
+(** val pruned : wopts -> str list -> str -> str -> bool **)
+
+let pruned o ig p b =
+  (||) ((&&) (negb o.o_hidden) (hidden_name b)) (skipped ig p b)
+
+(** val emit : bool -> str -> str list **)
+
+let emit b p =
+  if b then p :: [] else []
+
+(** val list_entry : wopts -> str list -> str -> entry -> str list **)
+
+let rec list_entry o ig d = function
+| File nm -> emit o.o_file (child d nm)
+| Dir (nm, ch) ->
+  let p = child d nm in
+  if pruned o ig p nm
+  then []
+  else app (emit o.o_dir (with_sep p)) (flat_map (list_entry o ig p) ch)
+| SymFile nm -> emit o.o_file (child d nm)
+| SymDir (nm, tg) ->
+  let p = child d nm in
+  if o.o_follow
+  then if pruned o ig p nm
+       then []
+       else app (emit o.o_file (with_sep p)) (flat_map (list_entry o ig p) tg)
+  else emit o.o_file p
+
+(** val listing : wopts -> str list -> str -> entry list -> str list **)
+
+let listing o ig root ch =
+  let d = display root in
+  if str_eqb d (dOT1 :: [])
+  then flat_map (list_entry o ig d) ch
+  else if pruned o ig d (base_name d)
+       then []
+       else app (emit o.o_dir (with_sep d)) (flat_map (list_entry o ig d) ch)
+
+(** val listing_roots :
+    wopts -> str list -> (str * entry list) list -> str list **)
+
+let listing_roots o ig roots =
+  flat_map (fun rc -> listing o ig (fst rc) (snd rc)) roots
+
+type kind =
+| KFile
+| KDir
+| KSymFile
+| KSymDir
+
+type action0 =
+| Continue
+| SkipDir
+
+(** val kind_of : entry -> kind **)
+
+let kind_of = function
+| File _ -> KFile
+| Dir (_, _) -> KDir
+| SymFile _ -> KSymFile
+| SymDir (_, _) -> KSymDir
+
+(** val is_sep0 : z -> bool **)
+
+let is_sep0 c =
+  Z.eqb c sLASH
+
+(** val sep : str **)
+
+let sep =
+  sLASH :: []
+
+(** val go_has_suffix : str -> str -> bool **)
+
+let go_has_suffix s suffix =
+  ends_with suffix s
+
+(** val go_has_prefix : str -> str -> bool **)
+
+let go_has_prefix s prefix =
+  starts_with0 prefix s
+
+(** val go_contains_rune : str -> z -> bool **)
+
+let go_contains_rune s c =
+  existsb (fun x -> Z.eqb x c) s
+
+(** val clean_root_path : str -> str **)
+
+let clean_root_path root =
+  match rev (drop_while is_sep0 (rev root)) with
+  | [] -> (match root with
+           | [] -> []
+           | c :: _ -> c :: [])
+  | z0 :: l -> z0 :: l
+
+(** val last_byte : str -> z option **)
+
+let rec last_byte = function
+| [] -> None
+| c :: r -> (match r with
+             | [] -> Some c
+             | _ :: _ -> last_byte r)
+
+(** val join_paths : str -> str -> str **)
+
+let join_paths dir base =
+  match last_byte dir with
+  | Some c -> if Z.eqb c sLASH then app dir base else app dir (sLASH :: base)
+  | None -> app dir (sLASH :: base)
+
+(** val pATH_SEPARATOR : z **)
+
+let pATH_SEPARATOR =
+  sLASH
+
+(** val trim_loop : str -> str **)
+
+let rec trim_loop s = match s with
+| [] -> s
+| a :: l ->
+  (match l with
+   | [] -> s
+   | b :: r ->
+     if (&&) (Z.eqb a dOT1) ((||) (Z.eqb b sLASH) (Z.eqb b pATH_SEPARATOR))
+     then trim_loop r
+     else s)
+
+(** val trim_path : str -> str **)
+
+let trim_path path =
+  match trim_loop path with
+  | [] -> dOT1 :: []
+  | z0 :: l -> z0 :: l
+
+(** val take_while0 : ('a1 -> bool) -> 'a1 list -> 'a1 list **)
+
+let rec take_while0 p = function
+| [] -> []
+| x :: t0 -> if p x then x :: (take_while0 p t0) else []
+
+(** val go_base : str -> str **)
+
+let go_base path = match path with
+| [] -> dOT1 :: []
+| _ :: _ ->
+  let p1 = rev (drop_while is_sep0 (rev path)) in
+  let p3 = rev (take_while0 (fun c -> negb (is_sep0 c)) (rev p1)) in
+  (match p3 with
+   | [] -> sep
+   | _ :: _ -> p3)
+
+(** val split_ignores : str list -> (str list * str list) * str list **)
+
+let rec split_ignores = function
+| [] -> (([], []), [])
+| ig :: r ->
+  let (p, x) = split_ignores r in
+  let (b, f) = p in
+  if go_contains_rune ig sLASH
+  then if go_has_prefix ig sep
+       then ((b, f), (ig :: x))
+       else ((b, (ig :: f)), ((app sep ig) :: x))
+  else (((ig :: b), f), x)
+
+(** val push : bool -> str -> str list **)
+
+let push b p =
+  if b then p :: [] else []
+
+(** val walk_fn :
+    wopts -> ((str list * str list) * str list) -> str -> kind -> (str
+    list * action0) res **)
+
+let walk_fn o ign path0 k =
+  let (p, ign_suffix) = ign in
+  let (ign_base, ign_full) = p in
+  let path = trim_path path0 in
+  if str_eqb path (dOT1 :: [])
+  then Ok ([], Continue)
+  else let is_dir = match k with
+                    | KDir -> true
+                    | _ -> false in
+       let is_symlink_to_dir = match k with
+                               | KSymDir -> true
+                               | _ -> false in
+       let wanted = (||) ((&&) o.o_file (negb is_dir)) ((&&) o.o_dir is_dir)
+       in
+       if (||) is_dir ((&&) o.o_follow is_symlink_to_dir)
+       then let base = go_base path in
+            bind (get base O) (fun b0 ->
+              if (&&) ((&&) (negb o.o_hidden) (Z.eqb b0 dOT1))
+                   (negb (str_eqb base (dOT1 :: (dOT1 :: []))))
+              then Ok ([], SkipDir)
+              else if existsb (fun ig -> str_eqb ig base) ign_base
+                   then Ok ([], SkipDir)
+                   else if existsb (fun ig -> str_eqb ig path) ign_full
+                        then Ok ([], SkipDir)
+                        else if existsb (fun ig -> go_has_suffix path ig)
+                                  ign_suffix
+                             then Ok ([], SkipDir)
+                             else let path1 =
+                                    if str_eqb path sep
+                                    then path
+                                    else app path sep
+                                  in
+                                  Ok ((push wanted path1), Continue))
+       else Ok ((push wanted path), Continue)
+
+type callback = str -> kind -> (str list * action0) res
+
+(** val fw_entry : callback -> bool -> str -> entry -> str list res **)
+
+let rec fw_entry fn follow dir e =
+  let joined = join_paths dir (name_of e) in
+  let read = fun l ->
+    let rec go0 = function
+    | [] -> Ok []
+    | x :: r ->
+      bind (fw_entry fn follow joined x) (fun a ->
+        bind (go0 r) (fun b -> Ok (app a b)))
+    in go0 l
+  in
+  bind (fn joined (kind_of e)) (fun r ->
+    match e with
+    | File _ ->
+      (match snd r with
+       | Continue -> Ok (fst r)
+       | SkipDir -> Err BadInput)
+    | Dir (_, ch) ->
+      (match snd r with
+       | Continue -> bind (read ch) (fun rest -> Ok (app (fst r) rest))
+       | SkipDir -> Ok (fst r))
+    | SymFile _ -> Ok (fst r)
+    | SymDir (_, tg) ->
+      (match snd r with
+       | Continue ->
+         if follow
+         then bind (read tg) (fun rest -> Ok (app (fst r) rest))
+         else Ok (fst r)
+       | SkipDir -> Ok (fst r)))
+
+(** val fw_read : callback -> bool -> str -> entry list -> str list res **)
+
+let rec fw_read fn follow dir = function
+| [] -> Ok []
+| x :: r ->
+  bind (fw_entry fn follow dir x) (fun a ->
+    bind (fw_read fn follow dir r) (fun b -> Ok (app a b)))
+
+(** val fw_walk : callback -> bool -> str -> entry list -> str list res **)
+
+let fw_walk fn follow root ch =
+  let root0 = clean_root_path root in
+  bind (fn root0 KDir) (fun r ->
+    match snd r with
+    | Continue ->
+      bind (fw_read fn follow root0 ch) (fun rest -> Ok (app (fst r) rest))
+    | SkipDir -> Ok (fst r))
+
+(** val walk_roots :
+    callback -> bool -> (str * entry list) list -> str list res **)
+
+let rec walk_roots fn follow = function
+| [] -> Ok []
+| p :: r ->
+  let (root, ch) = p in
+  bind (fw_walk fn follow root ch) (fun a ->
+    bind (walk_roots fn follow r) (fun b -> Ok (app a b)))
+
+(** val read_files :
+    wopts -> str list -> (str * entry list) list -> str list res **)
+
+let read_files o ignores roots =
+  walk_roots (walk_fn o (split_ignores ignores)) o.o_follow roots
+
+(** val as_entry : val0 -> entry **)
+
+let rec as_entry = function
+| VI _ -> File []
+| VL l ->
+  (match l with
+   | [] -> File []
+   | v0 :: l0 ->
+     (match v0 with
+      | VI k ->
+        (match l0 with
+         | [] -> File []
+         | nm :: l1 ->
+           (match l1 with
+            | [] ->
+              if Z.eqb k (Zpos (XO XH))
+              then SymFile (as_str nm)
+              else File (as_str nm)
+            | v1 :: _ ->
+              (match v1 with
+               | VI _ ->
+                 if Z.eqb k (Zpos (XO XH))
+                 then SymFile (as_str nm)
+                 else File (as_str nm)
+               | VL ch ->
+                 if Z.eqb k (Zpos XH)
+                 then Dir ((as_str nm), (map as_entry ch))
+                 else if Z.eqb k (Zpos (XI XH))
+                      then SymDir ((as_str nm), (map as_entry ch))
+                      else if Z.eqb k (Zpos (XO XH))
+                           then SymFile (as_str nm)
+                           else File (as_str nm))))
+      | VL _ -> File []))
+
+(** val as_opts : val0 -> wopts **)
+
+let as_opts v =
+  { o_file = (as_bool (arg v O)); o_dir = (as_bool (arg v (S O))); o_follow =
+    (as_bool (arg v (S (S O)))); o_hidden = (as_bool (arg v (S (S (S O))))) }
+
+(** val as_root : val0 -> str * entry list **)
+
+let as_root v =
+  ((as_str (arg v O)), (map as_entry (as_list (arg v (S O)))))
+
+(** val as_roots : val0 -> (str * entry list) list **)
+
+let as_roots v =
+  map as_root (as_list v)
+
+(** val as_kind : z -> kind **)
+
+let as_kind z0 =
+  if Z.eqb z0 (Zpos XH)
+  then KDir
+  else if Z.eqb z0 (Zpos (XO XH))
+       then KSymFile
+       else if Z.eqb z0 (Zpos (XI XH)) then KSymDir else KFile
+
+(** val d_model : val0 -> val0 **)
+
+let d_model a =
+  match read_files (as_opts (arg a O)) (as_strs (arg a (S O)))
+          (as_roots (arg a (S (S O)))) with
+  | Ok l -> VL ((VI (Zpos XH)) :: ((vstrs l) :: []))
+  | Err _ -> verr
+
+(** val d_spec : val0 -> val0 **)
+
+let d_spec a =
+  vstrs
+    (listing_roots (as_opts (arg a O)) (as_strs (arg a (S O)))
+      (as_roots (arg a (S (S O)))))
+
+(** val d_fn : val0 -> val0 **)
+
+let d_fn a =
+  match walk_fn (as_opts (arg a O)) (split_ignores (as_strs (arg a (S O))))
+          (as_str (arg a (S (S O)))) (as_kind (as_int (arg a (S (S (S O)))))) with
+  | Ok a0 ->
+    let (l, act0) = a0 in
+    VL
+    ((vstrs l) :: ((vbool
+                     (match act0 with
+                      | Continue -> false
+                      | SkipDir -> true)) :: []))
+  | Err _ -> verr
+
+(** val dispatch_walk : z -> val0 -> val0 option **)
+
+let dispatch_walk op a =
+  if Z.eqb op (Zpos (XI (XO (XI (XI (XO (XI (XI (XO (XI (XI XH)))))))))))
+  then Some (d_model a)
+  else if Z.eqb op (Zpos (XO (XI (XI (XI (XO (XI (XI (XO (XI (XI XH)))))))))))
+       then Some (d_spec a)
+       else if Z.eqb op (Zpos (XI (XI (XI (XI (XO (XI (XI (XO (XI (XI
+                 XH)))))))))))
+            then Some (vstr (trim_path (as_str a)))
+            else if Z.eqb op (Zpos (XO (XO (XO (XO (XI (XI (XI (XO (XI (XI
+                      XH)))))))))))
+                 then Some (d_fn a)
+                 else if Z.eqb op (Zpos (XI (XO (XO (XO (XI (XI (XI (XO (XI
+                           (XI XH)))))))))))
+                      then Some (vstr (display (as_str a)))
+                      else None
+
 (** val dispatch : z -> val0 -> val0 **)
 
 let dispatch op a =
@@ -14578,4 +15072,7 @@ let dispatch op a =
               | None ->
                 (match dispatch_token op a with
                  | Some v -> v
-                 | None -> verr)))))
+                 | None ->
+                   (match dispatch_walk op a with
+                    | Some v -> v
+                    | None -> verr))))))
